@@ -42,7 +42,9 @@ MethodRef(o) == ~(Has(o.case, "methodref") /\ ~o.case.methodref)
 MethodVerdicts(o) ==
   IF o.status # 200 THEN {}
   ELSE IF ~MethodRef(o) \/ o.overflow > 0 THEN C01(o)
-  ELSE IF C01(o) # {} THEN C01(o)       \* a malformed ranking is reported as such; its entries are not inspected further
+  ELSE IF C01(o) # {} THEN      \* a malformed ranking is reported as such; of the other contracts only the order / link
+                                \* contract of the utility methods (it guards itself against duplicate entries) is evaluated
+       C01(o) \cup (IF IsUtility(Method(o)) /\ HasEval(o) /\ ~(Has(o.case, "noC04") /\ o.case.noC04) THEN C04(o) ELSE {})
   ELSE C01(o) \cup
        (IF IsUtility(Method(o)) /\ HasEval(o) THEN (IF Has(o.case, "noC03") /\ o.case.noC03 THEN {} ELSE C03(o))
                                                 \cup (IF Has(o.case, "noC04") /\ o.case.noC04 THEN {} ELSE C04(o)) ELSE {}) \cup
